@@ -1,13 +1,39 @@
 """Regenerates MANIFEST.json from the table below (kept as code so that it is always schema-valid)."""
-import json, os
+import json
+import os
+
 HERE = os.path.dirname(os.path.abspath(__file__))
 BASE = json.load(open("/root/.vp/BASELINE.json"))["cmd"] if os.path.exists("/root/.vp/BASELINE.json") else "cd /repo && /venv/bin/python -m pytest -q"
 
+TECH = "contract-based deductive verification: symbolic execution of the real exponax functions under a jax.numpy contract shim (sidecar contracts, callee-by-contract stubs, scan invariants), VCs discharged by z3 / ring normaliser"
+NOTE = ("jax.numpy / lax / random primitives are replaced by assumed contracts (shim, DESIGN 2.3); IEEE floats are treated as exact reals/complex; "
+        "CPython, equinox and jax.tree_util run natively and are trusted; ")
+
 CLAIMED = {
-    # id: (level text, level note, technique, design_ref)
-    "C04": ("Every function of the grid/FFT/coefficient conventions (wavenumbers, scaling arrays, masks, mode slices, fft/ifft wrappers, coefficient read-off, make_grid) is under a sidecar contract whose post-condition is 'result equals the documented spec for every index'; the real function objects are executed symbolically (N, L symbolic, D in {1,2,3} and both indexings enumerated) and every obligation is discharged by z3 for all N. Level-2 lemmas connect the contracts to the property statement.",
-            "jax.numpy primitives replaced by their assumed contracts (shim, DESIGN 2.3); IEEE arithmetic treated as exact reals; DFT facts A5 (ifft(fft(u))=u, single-mode spectrum) assumed, not proved.",
-            "contract-based deductive verification: symbolic execution of the real code under a jax.numpy contract shim, VCs discharged by z3", "4/C04"),
+    "C01": ("Constructors of every linear stepper (all coefficient shapes and mixing flags, D in {1,2,3}) are proved to store exp(dt*sigma_doc(kappa)) for every mode, N, L, dt and coefficient value; ETDRK0 / BaseStepper / Wave step methods are proved equal to the documented per-mode update (Wave: the exact solution of h_t=v, v_t=c^2 Lap h). Lemmas: Hermitian symbols, semigroup and reversal of the propagator.",
+            NOTE + "A5 (single-mode spectrum, inversion) links the per-mode statement to 'analytic solution of every band-limited state'.", "4/C01"),
+    "C02": ("ETDRK1-4 constructors are proved (scan invariant over a symbolic number of contour points) to store dt times the complex contour mean of the Cox-Matthews closed forms for every complex symbol; step_fourier of every order equals the Cox-Matthews stage formulas with the nonlinear term an uninterpreted operator; every semi-linear stepper constructor is proved to pass its documented symbol and its own nonlinear term, for orders 0-4.",
+            NOTE + "A7 (contour mean = closed form) assumed; no contour node at the origin assumed (|dt*L| != r); the dt^p convergence theorem is cited, not proved.", "4/C02"),
+    "C03": ("Every nonlinear-function class (constructor and __call__) is proved equal to the documented pseudo-spectral operator, term for term, with the dealiasing mask |k|_inf <= fraction*(N//2)-1 applied before ifft and after fft; the band lemma 3K<N (2/3) / 4K<N (1/2) is proved for all N.",
+            NOTE + "rfftn/irfftn are opaque real-linear operators (A5: the aliasing lemma itself is assumed).", "4/C03"),
+    "C04": ("Every function of the grid / FFT / coefficient conventions is under contract (wavenumbers for both indexings, scaling arrays, masks, mode slices, fft/ifft wrappers, coefficient read-off, make_grid, wrap_bc); lemmas: index<->wavenumber bijection, scaling = Hermitian multiplicity / read-off factor, oddball mask = Nyquist set.",
+            NOTE + "A5 (ifft(fft(u)) = u, single-mode spectrum) assumed.", "4/C04"),
+    "C05": ("derivative, Laplace and gradient-inner-product operators, and the Poisson solver (constructor, step_fourier, step, __call__) are proved equal to their documented symbols for all N, L, D, orders 0-8; lemma: Lap_hat u_hat = -f_hat off the mean mode, u_hat = 0 at it; (i kappa)^n is the analytic symbol.",
+            NOTE + "A5 for the physical-space reading.", "4/C05"),
+    "C10": ("Leray (constructor, __call__), make_incompressible, _cross_product_3d, ProjectedConvection3d(+Kolmogorov) and the 3D velocity steppers are under contract; lemma (per mode, all kappa): d.P(u)=0, P(P u)=P u, d.u=0 => P u=u, independence of L, and stage updates with channel-independent coefficients preserve d.u=0.",
+            NOTE + "A5 (Nyquist-free fields) for the physical-space routines.", "4/C10"),
+    "C11": ("From the C01 contracts (exp(dt sigma_doc) stored per mode): Re sigma_doc <= 0 under the documented sign conditions, |exp(dt sigma)|^2 <= 1 (=1 for advection/dispersion, <1 off the mean for positive diffusivity), wave propagator is a rotation of the travelling-wave amplitudes.",
+            NOTE + "Parseval and 'irfftn discards the non-Hermitian part' (A5) assumed.", "4/C11"),
+    "C12": ("The Kolmogorov injections (2D vorticity, 3D velocity), their __call__, the stepper constructors passing mode/scale, GeneralVorticityConvectionStepper's both branches and ForcedStepper.step/step_fourier/__call__ are proved equal to the documented forcing / forcing split.",
+            NOTE + "A5 (spectrum of a single cosine/sine) is how the documented physical-space forcing is stated in Fourier space.", "4/C12"),
+    "C13": ("Constructors of the general/normalized/difficulty families are proved to build the same ETDRK object as the generic stepper with the documented converted coefficients; lemmas: conversions are mutual inverses, dt*sigma_generic(L;a) = sigma_generic(1;alpha), specific symbols equal generic symbols with the overview's coefficient lists.",
+            NOTE + "documented convention: the j=0 generic term is D*a_0.", "4/C13"),
+    "C14": ("rollout and repeat are proved by the iteration rule for a symbolic trip count n >= 0 (all flag combinations, one- and two-leaf pytrees): entry i is ITER(i+1); stack_sub_trajectories returns every window; RepeatedStepper / ForcedStepper wiring, effective dt and shape checks are proved.",
+            NOTE + "A5 for RepeatedStepper in physical space.", "4/C14"),
+    "C17": ("get_spectrum is proved (both binnings, power/amplitude, D in {1,2,3}, symbolic C and N) to equal the documented masked sums with 1/recon and 1/(2 recon N^D) weights; lemma: half-open bins partition [0, N//2+1/2).",
+            NOTE + "nanmean of an empty bin is NaN natively (unconstrained here); Parseval (A5) assumed.", "4/C17"),
+    "C20": ("raises-contracts: __call__ of BaseStepper / RepeatedStepper / Poisson rejects exactly the mis-shaped states (symbolic wrong channel count, wrong axis length, rank +-1); dimension guards of the NS classes and nonlinear terms, parity guards of the operators, option guards (scaling mode, scale_list length, ifft in 1D, order not in 0..4).",
+            NOTE + "pure shape / integer reasoning.", "4/C20"),
 }
 NA = {
     "C06": "quantifies over JAX program transformations (jit/vmap/filter_vmap of constructors); no contract on an exponax function can express it short of assuming it (DESIGN 5)",
@@ -16,9 +42,10 @@ NA = {
 }
 PENDING = {}
 
+
 def build(all_ids):
     checks = []
-    for pid, (text, note, tech, ref) in sorted(CLAIMED.items()):
+    for pid, (text, note, ref) in sorted(CLAIMED.items()):
         checks.append({
             "property_id": pid,
             "quick_cmd": f"./check {pid} --tier quick",
@@ -28,23 +55,24 @@ def build(all_ids):
             "engine": "symjnp",
             "level_claimed": {"category": "proof", "text": text, "design_ref": f"DESIGN.md section {ref}"},
             "level_note": note,
-            "technique": tech,
+            "technique": TECH,
         })
     na = [{"property_id": k, "reason": v} for k, v in sorted(NA.items())]
     for pid in all_ids:
         if pid not in CLAIMED and pid not in NA:
-            na.append({"property_id": pid, "reason": PENDING.get(pid, "contracts for this property are not built yet in this revision of /verif (work in progress, see DESIGN.md section 9)")})
+            na.append({"property_id": pid, "reason": PENDING.get(pid, "contracts for this property are not complete in this revision of /verif (work in progress, DESIGN.md section 9); not claimed until its check passes on the unchanged tree")})
     return {
         "version": 1,
         "setup_cmd": "./setup.sh",
         "hooks": {"guard": "EXPONAX_VERIF", "enable": "none needed: contracts are sidecar files under /verif and the jax names are rebound in-process at check time; /repo carries no instrumentation",
                   "baseline_off_cmd": BASE, "source_commits": [], "add_only": True},
         "engines": [{"name": "symjnp", "path": "symjnp/", "serves_properties": sorted(CLAIMED),
-                     "kind_free_text": "forward symbolic executor of the real exponax function objects under a jax.numpy contract shim (index-lambda arrays over z3 terms), callee-by-contract stubs, VCs discharged by z3 (cvc5 for unknowns)"}],
+                     "kind_free_text": "forward symbolic executor of the real exponax function objects under a jax.numpy contract shim (index-lambda arrays over z3 terms), callee-by-contract stubs, scan invariants, VCs discharged by z3 with a ring / exponential-polynomial normaliser front end; native replay of counterexamples on real jax"}],
         "checks": checks,
-        "notes": "All checks rebuild everything from /repo's working tree (VERIF_REPO overrides for scratch copies). Exit codes: 0 held, 1 violation, 2 undecided, 3 tool failure.",
+        "notes": "All checks rebuild everything from /repo's working tree (VERIF_REPO overrides for scratch copies). Exit codes: 0 held, 1 violation, 2 undecided, 3 tool failure. Results of shared (contract, case) items are cached under .cache/<hash of /repo/exponax and of the verifier sources>.",
         "not_applicable": sorted(na, key=lambda d: d["property_id"]),
     }
+
 
 if __name__ == "__main__":
     ids = [json.loads(l)["id"] for l in open(os.path.join(HERE, "properties.jsonl"))]
